@@ -232,6 +232,14 @@ func c01Judge(c *xplor.Ctx, obs *mxObs, req, resp []proto.Message) {
 	if be.Calls > 1 {
 		c.Fail("C01.duplicated-dispatch", "backend invoked %d times\n%s", be.Calls, desc())
 	}
+	// a message delivered under a wrong compression label: compressed flag over zero bytes
+	// that the sender did not produce (zero bytes are no valid compressed stream)
+	if obs.BReq != nil && obs.BReq.FlaggedEmpty > 0 && obs.Spec != nil && b.Client.form.Enveloped() && (obs.Spec.Body == nil || wire.CountFlaggedEmpty(obs.Spec.Body.Data) == 0) {
+		c.Fail("C01.request-wrong-compression-label", "%d request message(s) reached the backend with the compressed flag over zero bytes; the client sent no such frame\n%s", obs.BReq.FlaggedEmpty, desc())
+	}
+	if obs.CResp != nil && obs.CResp.FlaggedEmpty > 0 && obs.SrvResp != nil && obs.SrvResp.Form.Enveloped() && wire.CountFlaggedEmpty(obs.SrvResp.Encode().Body) == 0 {
+		c.Fail("C01.response-wrong-compression-label", "%d response message(s) reached the client with the compressed flag over zero bytes; the backend sent no such frame\n%s", obs.CResp.FlaggedEmpty, desc())
+	}
 	if judgeReq {
 		if clientOK && !msgsEqual(got, req) {
 			c.Fail("C01.request-altered", "RPC succeeded but the backend observed %s instead of the %d message(s) sent\n%s", renderMsgs(got), len(req), desc())
